@@ -804,11 +804,27 @@ def cpl(c, F, G = None, h = None, dims = None, A = None, b = None,
                 ycopy(y0, y); 
                 blas.copy(s0, s); blas.copy(z0, z)
                 blas.copy(lmbda0, lmbda)
-                blas.copy(lmbdasq, lmbdasq0)
+                blas.copy(lmbdasq0, lmbdasq)
                 xcopy(rx0, rx); ycopy(ry0, ry)
                 resx = math.sqrt(xdot(rx, rx))
                 blas.copy(rznl0, rznl);  blas.copy(rzl0, rzl);
                 resznl = blas.nrm2(rznl)
+
+                # The statistics reported on termination must refer to 
+                # the restored iterates.
+                resy = math.sqrt(ydot(ry, ry))
+                reszl = misc.snrm2(rzl, dims)
+                pcost = xdot(c,x)
+                dcost = pcost + ydot(y, ry) + blas.dot(z[:mnl], rznl) + \
+                    misc.sdot(z[mnl:], rzl, dims) - gap
+                if pcost < 0.0:
+                    relgap = gap / -pcost
+                elif dcost > 0.0:
+                    relgap = gap / dcost
+                else:
+                    relgap = None
+                pres = math.sqrt( resy**2 + resznl**2 + reszl**2 ) / pres0
+                dres = resx / dres0
 
                 relaxed_iters = -1
 
